@@ -17,7 +17,7 @@ head -1 "$HERE/edits/$NAME.py" | sed 's/^# *//' > "$HERE/$NAME.result"
 cd "$ROOT"
 for PROP in "$@"; do
   rm -rf "$OUT"
-  PCFG_REPO=$SC PCFG_OUT=$OUT ./check $PROP --tier quick 2>&1 | grep -v '^WARNING' | cut -c1-700 > "$OUT.log" || true
+  PCFG_REPO=$SC PCFG_OUT=$OUT timeout 900 ./check $PROP --tier quick 2>&1 | grep -v '^WARNING' | cut -c1-700 > "$OUT.log" || true
   ( echo "--- $PROP: $(tail -1 "$OUT.log")"
     grep -E '^(VIOLATION|KNOWN-FINDING)' -A1 "$OUT.log" | head -6
     /venv/bin/python - "$OUT" <<'PY'
